@@ -162,9 +162,11 @@ def check(prog, run):
         ok = len(tdef) == 1 and isinstance(tdef[0].value, ast.Call) and ast.unparse(tdef[0].value.func) == "TypeInfoVisitor"
         rest = cv[0].args[1:]
         ok = ok and len(rest) == 1 and isinstance(rest[0], ast.Starred)
-        builds = [n for n in ast.walk(dv.node) if isinstance(n, ast.ListComp) and isinstance(n.elt, ast.Call) and len(n.elt.args) == 2]
+        # each rule class (the variable of a comprehension or of a for loop) is instantiated with (schema, <the type-info visitor>)
+        loopvars = {x.id for n in ast.walk(dv.node) if isinstance(n, (ast.For, ast.comprehension)) for x in ast.walk(n.target) if isinstance(x, ast.Name)}
+        builds = [n for n in ast.walk(dv.node) if isinstance(n, ast.Call) and isinstance(n.func, ast.Name) and n.func.id in loopvars and len(n.args) == 2]
         r.instance("rule construction `%s`" % (ast.unparse(builds[0]) if builds else None))
-        if not builds or ast.unparse(builds[0].elt.args[1]) != first:
+        if not builds or any(ast.unparse(b_.args[1]) != first for b_ in builds):
             ok = False
     if not ok:
         run.report(r, "%s:default_validator:chain" % VALIDATE, dv.where(), "the type-info visitor is not the first element of the chain shared by all rules")
